@@ -179,7 +179,12 @@ def _run(ctx, r, idx, aw, bench, w):
 			ok = cmd(i, "SETFH %d %d %s" % (r.randrange(64), r.randrange(4), ma))
 		elif x < 0.9 and clock.running:
 			# queue a burst for a future frame: it must be emitted in that frame unless POWEROFF intervenes
-			s = r.choice([j for j in range(n)])
+			# only transceivers with a defined transmit frequency take part in traffic (an untuned child
+			# powered on through its parent has none: the property does not define what it reaches)
+			tuned = [j for j in range(n) if bench.models[j].fh is not None or bench.models[j].tx_khz is not None]
+			if not tuned:
+				continue
+			s = r.choice(tuned)
 			m = bench.models[s]
 			fn = (clock.fn + r.randint(3, 40)) % trxd.HYPERFRAME
 			b = {"dir": "tx", "ver": m.ver, "fn": fn, "tn": r.randrange(8), "pwr": 0, "bits": trxd.rand_bits(r, 148)}
@@ -253,7 +258,7 @@ def _run(ctx, r, idx, aw, bench, w):
 				ok_fns = sorted(b["fn"] for b in allowed.get(j, []))
 				got_fns = sorted(dd["fn"] for dd in bursts)
 				if got_fns != ok_fns:
-					ctx.violation("queue", dict(w, history = log[-16:], recipient = names[j], got_fns = got_fns, expected_fns = ok_fns),
+					ctx.violation("queue", dict(w, history = log[-60:], recipient = names[j], got_fns = got_fns, expected_fns = ok_fns),
 						what = "bursts emitted after the ticks differ from those still queued "
 							"(POWEROFF must discard the queue; nothing from before it may be sent later)")
 					return
